@@ -18,7 +18,7 @@ func init() {
 	register(&Check{
 		ID: "C12", Level: "exploration", Primary: "orders", EvalCount: "fences_checked", RaceIsViolation: true,
 		Rule: "one evaluation = a fresh server, a PRNG-chosen order of Stop relative to Run (Stop before Run; Stop 0-300us after Run was started; Stop after Ready) and, when serving, a PRNG-chosen connection state " +
-			"(connect storm with accepts in flight, handlers parked and released by a timer only after Stop was called - 5..45ms later, now and then 1.2..2.6s later -, ldaps sessions ended with close_notify / bare FIN / reset just before Stop, slow OnClose callback held 20-120ms by the harness, clients tearing down, idle connections, handlers whose client hung up, a held unbind-route handler, ldaps handlers parked, an OnClose callback still running while no connection is open any more), " +
+			"(connect storm with accepts in flight, handlers parked and released by a timer only after Stop was called - 5..45ms later, now and then 1.2..2.6s later -, ldaps sessions ended with close_notify / bare FIN / reset just before Stop, slow OnClose callback held 20-120ms (every tenth time 3.3-4.8s) by the harness, clients tearing down, idle connections, handlers whose client hung up, a held unbind-route handler, ldaps handlers parked, an OnClose callback still running while no connection is open any more), " +
 			"optionally a concurrent or later second Stop. At the fence (the instant both Stop and Run have returned) the monitor requires: no handler in flight, no OnClose in progress, one completed OnClose for every " +
 			"connection ID a handler ever saw, every served client connection closed, dial refused, the address bindable again; and over a 300ms tail no event stamped after the fence. Runs under the race detector. " +
 			"distinct_nontrivial = distinct (order, state, second-Stop, observed Ready-at-Stop) combinations",
@@ -26,13 +26,13 @@ func init() {
 		Phases: func(tier string, seed int64) []Phase {
 			return []Phase{{Name: "fences", Race: true, Run: c12Run}}
 		},
-		MinObserved: []string{"fences_checked", "order/stop-before-run", "order/race-startup", "order/after-ready", "runs_with_handlers_parked_at_stop", "runs_with_onclose_slow", "runs_with_connect_storm", "runs_with_tls_sessions_torn_down", "tls_sessions_served_before_stop", "runs_with_parked_handlers_whose_client_hung_up", "runs_with_an_unbind_handler_held_at_stop", "runs_with_tls_handlers_parked_at_stop", "runs_with_an_onclose_callback_running_and_no_connection_open_at_stop", "runs_with_handlers_held_more_than_a_second_after_stop"},
+		MinObserved: []string{"fences_checked", "order/stop-before-run", "order/race-startup", "order/after-ready", "runs_with_handlers_parked_at_stop", "runs_with_onclose_slow", "runs_with_connect_storm", "runs_with_tls_sessions_torn_down", "tls_sessions_served_before_stop", "runs_with_parked_handlers_whose_client_hung_up", "runs_with_an_unbind_handler_held_at_stop", "runs_with_tls_handlers_parked_at_stop", "runs_with_onclose_held_for_seconds", "runs_with_an_onclose_callback_running_and_no_connection_open_at_stop", "runs_with_handlers_held_more_than_a_second_after_stop"},
 	})
 }
 
 var c12Tails []func()
 
-var c12ParkedRuns int
+var c12ParkedRuns, c12SlowCloseRuns int
 
 var (
 	c12PKIOnce sync.Once
@@ -73,6 +73,14 @@ func c12One(c *Ctx, r *Rand, idx int) {
 	closeDelay := time.Duration(20+r.Intn(100)) * time.Millisecond
 	if state == "onclose-running-at-stop" {
 		closeDelay = time.Duration(250+r.Intn(200)) * time.Millisecond
+	}
+	if slowClose && state != "onclose-running-at-stop" {
+		// every tenth slow-callback run holds the callback for seconds: well beyond any grace period Stop might have
+		c12SlowCloseRuns++
+		if c12SlowCloseRuns%10 == 4 {
+			closeDelay = time.Duration(3300+r.Intn(1500)) * time.Millisecond
+			c.Count("runs_with_onclose_held_for_seconds", 1)
+		}
 	}
 	cfg := SrvCfg{OnClose: func(id int) {
 		onclosing.Add(1)
